@@ -163,4 +163,8 @@ def run(chk, tier, only_rule=None):
     c06.r06_6(chk, tier)
     r08_4(chk, tier)
     r08_5(chk, tier)
+    # the JSON encoders copy a string tagged noesc without looking at it: what they emit is well-formed only if the parser gives that tag
+    # to strings without escapes and to no other (R01.9)
+    from . import c01
+    c01.r01_9(chk, F.load(['core'], tier))
     c06.ladders(chk, tier)      # a header that announces another width/family than the bytes that follow is not well-formed
